@@ -468,6 +468,26 @@ def g_rules(p: Project, rep: Report):
         rep.check("G-R3", "read_config:reads-all-configurable", verdict, "" if verdict else "read_config does not read every CONFIGURABLE option present in the section", gloc(p, rc0))
 
     rep.rule("G-R7", "an option is left out of the saved section only when the lower-ranking sources already yield the same value: it is compared with the FI-database value if there is one, else with the built-in default (never with the default alone, never with the default shadowing the FI database)")
+    # ... and an option that is left out is also TAKEN out: a value saved by an earlier --write would otherwise keep
+    # outranking the lower sources, and the next run would not see the value that was in effect when saving
+    for lv in loop_views(mk):
+        if text(lv.iter) not in ("CONFIGURABLE.items()", "CONFIGURABLE", "CONFIGURABLE.keys()"):
+            continue
+        tn = lv.target_names
+        optv = tn[0] if tn else None
+
+        def _removes(nd):
+            for c_ in ast.walk(nd):
+                if isinstance(c_, ast.Call) and isinstance(c_.func, ast.Attribute) and c_.func.attr in ("remove_option", "pop") and any(isinstance(a_, ast.Name) and a_.id == optv for a_ in c_.args):
+                    return True
+                if isinstance(c_, ast.Delete) and any(isinstance(t_, ast.Subscript) and isinstance(t_.slice, ast.Name) and t_.slice.id == optv for t_ in c_.targets):
+                    return True
+            return False
+
+        stores_ = [it for it, cont, k, v in stores_keyed_by(lv, optv) if isinstance(v, ast.Call) and text(v.func) == "arg2config"]
+        removals = [it for it in lv.items if _removes(it.node)]
+        if stores_:
+            rep.check("G-R7", "mk_server_cfg:skipped-options-are-cleared", bool(removals), "an option whose value equals what the lower sources yield is skipped, but a different value saved for it earlier stays in the user's section: after `--version 203 --write` over a stored `version = 102` the next run uses 102 again - the saved settings are not the ones that were in effect" if not removals else "", gloc(p, stores_[0].node))
     cmp_ok = None
     detail = ""
     for st in ast.walk(mk):
